@@ -350,7 +350,7 @@ func genModule(rt *rapid.T, c *Case, maxPkgs int) {
 		}
 		p.tests = chance(rt, "has_tests", 55)
 		p.xtest = chance(rt, "has_xtest", 30)
-		p.fileIgn = chance(rt, "file_ignore", 15)
+		p.fileIgn = chance(rt, "file_ignore", 30)
 		switch rng(rt, "conf", 0, 9) {
 		case 0:
 			p.conf = "checks = [\"inherit\", \"-S1002\"]\n"
@@ -387,6 +387,16 @@ func genModule(rt *rapid.T, c *Case, maxPkgs int) {
 			c.Imports[p.name] = append(c.Imports[p.name], pkgs[j].name)
 		}
 		renderPkg(c, p, pkgs)
+	}
+	// two packages with the same package name, the same file name and the same object on the
+	// same line, which only one of them uses (two commands of a repository look like this)
+	if chance(rt, "twins", 60) {
+		for k, call := range []string{" + helper()", ""} {
+			name := fmt.Sprintf("tw%d", k)
+			c.Pkgs = append(c.Pkgs, name)
+			c.Imports[name] = []string{}
+			c.Files[name+"/t.go"] = "// Package twin exists twice.\npackage twin\n\n// Entry is exported.\nfunc Entry() int { return 0" + call + " }\n\nfunc helper() int { return 1 }\n"
+		}
 	}
 }
 
@@ -539,7 +549,7 @@ func onlyTest@() int { return @ }
 			body.WriteString(strings.TrimPrefix(s, "\n") + "\n\n")
 		}
 		if f == 0 && p.fileIgn {
-			sb.WriteString("//lint:file-ignore ST1005 generated on purpose\n\n")
+			sb.WriteString("//lint:file-ignore ST1005,SA4000 generated on purpose\n\n") // overlaps with the line directives of the templates sa4000_ignored and st1005_glob_ignored
 		}
 		sb.WriteString("package p" + I + "\n\n" + imp(nil, errs) + body.String())
 		c.Files[fmt.Sprintf("%s/%c.go", p.name, 'c'+f)] = sb.String()
@@ -600,7 +610,12 @@ func spell(rt *rapid.T, pkg string) string {
 // subsets of those (all non-empty subsets when allSubsets).
 func genPlan(rt *rapid.T, c *Case, nrep, nfmt, nsingles, nsubsets int, allSubsets bool, race bool) {
 	seed := func() int64 { return int64(rng(rt, "sched_seed", 1, 1<<30)) }
-	for _, p := range shuffled(rt, "procs_order", procsDomain) {
+	// quick tier (nrep <= 1): three of the six GOMAXPROCS values, so that the other clauses get their turn within the budget
+	jsonProcs := shuffled(rt, "procs_order", procsDomain)
+	if nrep <= 1 {
+		jsonProcs = jsonProcs[:3]
+	}
+	for _, p := range jsonProcs {
 		c.Det = append(c.Det, RunCfg{Format: "json", Procs: p, Seed: seed()})
 	}
 	for i := 0; i < nrep; i++ {
@@ -610,7 +625,7 @@ func genPlan(rt *rapid.T, c *Case, nrep, nfmt, nsingles, nsubsets int, allSubset
 		ps := shuffled(rt, "fmt_procs", procsDomain)
 		k := nfmt
 		if f == "sarif" || f == "binary" {
-			k = 2
+			k = min(2, nfmt)
 		}
 		if k > len(ps) {
 			k = len(ps)
@@ -626,6 +641,17 @@ func genPlan(rt *rapid.T, c *Case, nrep, nfmt, nsingles, nsubsets int, allSubset
 		nsingles = len(order)
 	}
 	c.Singles = append([]string(nil), order[:nsingles]...)
+	// the twin that does not use its helper is always analysed alone as well
+	hasTwin, inSingles := false, false
+	for _, p := range c.Pkgs {
+		hasTwin = hasTwin || p == "tw1"
+	}
+	for _, p := range c.Singles {
+		inSingles = inSingles || p == "tw1"
+	}
+	if hasTwin && !inSingles && len(c.Singles) > 0 {
+		c.Singles[len(c.Singles)-1] = "tw1"
+	}
 	sort.Strings(c.Singles)
 	c.SProcs = pick(rt, "single_procs", procsDomain)
 	mk := func(set []string, dots bool) SubsetCfg {
